@@ -78,14 +78,14 @@ theorem stepT_chainOK {d : Doc V E} {cfg : Cfg} (hg : cfg.sharedGuard = false) {
       exact ⟨by simpa [ctlKeys] using hch, rfl⟩
     | cons p ps =>
       simp only [stepT, Option.some.injEq] at hs
-      rw [← hs]
+      rw [show t' = _ from (congrArg Prod.snd hs).symm]
       exact runTo_chainOK d cfg sh _ p hch
   | enter T r k =>
     simp only [ctlKeys, List.nil_append] at hch
     simp only [stepT, hg, Bool.false_eq_true, if_false] at hs
     split at hs
     · simp only [Option.some.injEq] at hs
-      rw [← hs]
+      rw [show t' = _ from (congrArg Prod.snd hs).symm]
       exact runTo_chainOK d cfg sh _ _ hch
     · simp only [Option.some.injEq, Prod.mk.injEq] at hs
       rw [← hs.2]
@@ -96,23 +96,23 @@ theorem stepT_chainOK {d : Doc V E} {cfg : Cfg} (hg : cfg.sharedGuard = false) {
     split at hs
     · split at hs
       · simp only [Option.some.injEq] at hs
-        rw [← hs]
+        rw [show t' = _ from (congrArg Prod.snd hs).symm]
         exact runTo_chainOK d cfg _ _ _ (by simpa [keys] using hch)
       · simp only [Option.some.injEq, Prod.mk.injEq] at hs
         rw [← hs.2]
         exact ⟨by simp [ctlKeys, hch], rfl⟩
       · simp only [Option.some.injEq] at hs
-        rw [← hs]
+        rw [show t' = _ from (congrArg Prod.snd hs).symm]
         exact afterLookup_chainOK d cfg sh _ T r k _ _ hch
     · simp only [Option.some.injEq] at hs
-      rw [← hs]
+      rw [show t' = _ from (congrArg Prod.snd hs).symm]
       exact runTo_chainOK d cfg _ _ _ (by simpa [keys] using hch)
   | waiting T r k =>
     simp only [ctlKeys, List.singleton_append] at hch
     simp only [stepT] at hs
     split at hs
     · simp only [Option.some.injEq] at hs
-      rw [← hs]
+      rw [show t' = _ from (congrArg Prod.snd hs).symm]
       exact afterLookup_chainOK d cfg sh _ T r k _ _ hch
     · simp at hs
   | storing res =>
@@ -128,7 +128,7 @@ theorem stepT_chainOK {d : Doc V E} {cfg : Cfg} (hg : cfg.sharedGuard = false) {
     simp only [stepT, hg, Bool.false_eq_true, if_false] at hs
     subst hch
     simp only [if_true, Option.some.injEq] at hs
-    rw [← hs]
+    rw [show t' = _ from (congrArg Prod.snd hs).symm]
     exact runTo_chainOK d cfg sh _ _ rfl
 
 end Conc
